@@ -196,7 +196,8 @@ Eval(g, e, inp, st) ==
     [] e.k = "eoi"   -> IF pos # Len(inp) THEN FailR
                         ELSE OkR(pos, stk, IF st.atom = "A" THEN <<>> ELSE <<MkPair("EOI", pos, pos, <<>>)>>)
     [] e.k = "ref"   -> Apply(g, e.n, inp, st)
-    [] e.k = "seq"   -> SeqFrom(g, e.es, 1, inp, st, <<>>)
+    [] e.k = "seq"   -> IF e.es = <<>> THEN OkR(pos, stk, <<>>)     \* e{0}, e{,0} unroll to the empty sequence
+                        ELSE SeqFrom(g, e.es, 1, inp, st, <<>>)
     [] e.k = "alt"   -> AltFrom(g, e.es, 1, inp, st)
     [] e.k = "opt"   -> LET r == Eval(g, e.e, inp, st) IN IF r.ok THEN r ELSE OkR(pos, stk, <<>>)
     [] e.k = "star"  -> LET r == Eval(g, e.e, inp, st)
